@@ -266,7 +266,7 @@ func CompactJSON(input, output []byte) []byte {
 			// Skip over whitespace.
 			continue
 		}
-		if c == '-' && input[i] == '0' {
+		if c == '-' && isNegativeZero(input, i) {
 			// Negative 0 is changed to '0', skip the '-'.
 			continue
 		}
@@ -302,6 +302,25 @@ func CompactJSON(input, output []byte) []byte {
 		}
 	}
 	return output
+}
+
+// isNegativeZero returns true if the '-' preceding index starts the number "-0".
+// It must not match the sign of numbers such as "-0.5" or of exponents such as "1e-05".
+func isNegativeZero(input []byte, index int) bool {
+	if index >= len(input) || input[index] != '0' {
+		return false
+	}
+	if index >= 2 && (input[index-2] == 'e' || input[index-2] == 'E') {
+		// This is the sign of an exponent.
+		return false
+	}
+	if index+1 < len(input) {
+		switch input[index+1] {
+		case '.', 'e', 'E':
+			return false
+		}
+	}
+	return true
 }
 
 // compactUnicodeEscape unpacks a 4 byte unicode escape starting at index.
